@@ -484,3 +484,49 @@ func calleeImpliedFacts(p *Program, call *ssa.Call, pol bool) map[condFact]bool 
 	}
 	return common
 }
+
+// isLoopHeader: b dominates one of its predecessors.
+func isLoopHeader(b *ssa.BasicBlock) bool {
+	for _, pr := range b.Preds {
+		if b.Dominates(pr) {
+			return true
+		}
+	}
+	return false
+}
+
+// naturalLoop: the blocks of the loop headed by h - dominated by h and able to come back to h without leaving the
+// blocks h dominates.
+func naturalLoop(h *ssa.BasicBlock) map[*ssa.BasicBlock]bool {
+	in := map[*ssa.BasicBlock]bool{h: true}
+	var work []*ssa.BasicBlock
+	for _, pr := range h.Preds {
+		if h.Dominates(pr) && !in[pr] {
+			in[pr] = true
+			work = append(work, pr)
+		}
+	}
+	for len(work) > 0 {
+		b := work[len(work)-1]
+		work = work[:len(work)-1]
+		for _, pr := range b.Preds {
+			if !in[pr] && h.Dominates(pr) {
+				in[pr] = true
+				work = append(work, pr)
+			}
+		}
+	}
+	return in
+}
+
+// innermostLoop: the header of the innermost natural loop that contains b, and that loop's blocks.
+func innermostLoop(b *ssa.BasicBlock) (*ssa.BasicBlock, map[*ssa.BasicBlock]bool) {
+	for h := b; h != nil; h = h.Idom() {
+		if isLoopHeader(h) {
+			if l := naturalLoop(h); l[b] {
+				return h, l
+			}
+		}
+	}
+	return nil, nil
+}
